@@ -182,7 +182,7 @@ PROPS['C09'] = {
                               'TSan keeps 4 accesses per 8-byte shadow cell: a race whose first access was evicted is missed in that schedule'],
     'stub': 'table storage (SimStore), clock (edge counter), thread scheduler (SimSched fibers); no stdio, no allocation-failure injection',
 }
-MANIFEST_TEXT['C09'] = {'text': 'Seeded schedules of 2..4 simulated threads over one shared cold preloadAll face, preempted at basic-block edges, with ThreadSanitizer as the race oracle (made deterministic by the '
-                                'fiber scheduler), sequential-twin result equality and callback counters; a lazy-face negative control proves the detector is alive in every batch.',
+MANIFEST_TEXT['C09'] = {'text': 'Seeded schedules of 2..4 simulated threads over one shared cold preloadAll face, preempted at basic-block edges and at every atomic operation of library code, over healthy, damaged-but-stable and synthesised font storage, with ThreadSanitizer as the race oracle (made deterministic by the '
+                                'fiber scheduler), sequential-twin result equality, self-consistency queries (a feature looked up by its own id) and callback counters; a lazy-face negative control proves the detector is alive in every batch.',
                         'design_ref': '4.5', 'note': 'schedules are sampled; TSan happens-before race detection over sequentially consistent interleavings', 'technique': 'deterministic simulation: seeded fiber scheduler at edge granularity + ThreadSanitizer fiber API, sequential twin as reference'}
 NOT_APPLICABLE.pop('C09')
